@@ -158,7 +158,7 @@ def run(pid, tier):
                        transitions=aut.generated + paths.generated + man.generated + giv.generated,
                        traces_validated_against_impl=len(allrecs) - len([v for v in chk.violations]),
                        distinct_nontrivial=len({r["text"] for r in allrecs}),
-                       rule="all strings <= %d over the 15-character path alphabet (each also with .fga appended), manifests of <= %d entries from a pool of 13 x 96 YAML styles, "
+                       rule="all strings <= %d over the 15-character path alphabet (each also with .fga appended), manifests of <= %d entries from a pool of 17 x 96 YAML styles, "
                             "seeded random longer strings; distinct by manifest text" % (maxlen, maxent),
                        exhaustive=True, automaton_states=aut.distinct)
         for r in (paths.records[:1] + paths.records[-1:] + man.records[:1] + giv.records[:1]):
